@@ -57,6 +57,11 @@ func c13Cases(tier string) []c13Case {
 			cs = append(cs, c13Case{Kind: "stall-mid", Offset: off, Mode: m})
 		}
 		cs = append(cs, c13Case{Kind: "stop", Mode: m})
+		// the coordinator begins a transfer (normal -> in_transfer, the counter restarts) while a scrape is in flight,
+		// and that scrape ends differently from the one before: the published status must show ITS outcome
+		for _, gz := range []bool{false, true} {
+			cs = append(cs, c13Case{Kind: "transfer-begins-inflight-fail", Mode: m, Gzip: gz}, c13Case{Kind: "transfer-begins-inflight-ok", Mode: m, Gzip: gz})
+		}
 		// the stop reason changes while the real request is in flight (target gated by the harness)
 		for _, gz := range []bool{false, true} {
 			cs = append(cs, c13Case{Kind: "stop-cleared-inflight", Mode: m, Gzip: gz}, c13Case{Kind: "stop-set-inflight", Mode: m, Gzip: gz})
@@ -303,7 +308,8 @@ func runC13Case(w *core.WorkerCtx, idx int, ld *c13Load) *core.CaseResult {
 	// 2. the faulty scrape
 	var raw *rawTarget
 	fault := true
-	either := false // the stop reason changes mid-scrape: the attempt may count as failed or as successful, but consistently
+	transferMid := false // the target goes normal -> in_transfer while the scrape is in flight
+	either := false      // the stop reason changes mid-scrape: the attempt may count as failed or as successful, but consistently
 	var gate, entered chan struct{}
 	truncating := true // the fault cuts content (vs. breaking after all content was delivered)
 	switch c.Kind {
@@ -327,6 +333,21 @@ func runC13Case(w *core.WorkerCtx, idx int, ld *c13Load) *core.CaseResult {
 			return res
 		}
 		rg.hookClients()
+	case "transfer-begins-inflight-fail":
+		transferMid = true
+		gate, entered = make(chan struct{}), make(chan struct{})
+		rg.mt.set(host, &bodyScript{Status: 503, Body: []byte("overloaded\n"), Gate: gate, Entered: entered})
+	case "transfer-begins-inflight-ok":
+		// the scrape before the interesting one fails
+		rg.mt.set(host, &bodyScript{Status: 500, Body: []byte("boom\n")})
+		_ = scrape(reqURL)
+		if st := status(); st == nil || string(st.Health) != "down" {
+			res.Inconcl = "preparatory failing scrape did not register"
+			return res
+		}
+		transferMid, fault = true, false
+		gate, entered = make(chan struct{}), make(chan struct{})
+		rg.mt.set(host, &bodyScript{Body: body, Gzip: c.Gzip, Gate: gate, Entered: entered})
 	case "stop-cleared-inflight", "stop-set-inflight":
 		either = true
 		if c.Kind == "stop-cleared-inflight" {
@@ -386,15 +407,20 @@ func runC13Case(w *core.WorkerCtx, idx int, ld *c13Load) *core.CaseResult {
 			ld.suspect = true
 			return res
 		}
-		reason := "disk of prometheus is full"
-		if c.Kind == "stop-cleared-inflight" {
-			reason = ""
+		var err error
+		if transferMid {
+			err = rg.in.UpdateTargets(map[string][]*target.Target{"j1": {rigTarget(h, "in_transfer")}})
+		} else {
+			reason := "disk of prometheus is full"
+			if c.Kind == "stop-cleared-inflight" {
+				reason = ""
+			}
+			_, _, err = rg.in.Call("POST", "/api/v1/status/extra_config/", &prom.ExtraConfig{StopScrapeReason: reason}, nil)
 		}
-		_, _, err := rg.in.Call("POST", "/api/v1/status/extra_config/", &prom.ExtraConfig{StopScrapeReason: reason}, nil)
 		close(gate)
 		o = <-ch
 		if err != nil {
-			res.Inconcl = "change stop reason mid-scrape: " + err.Error()
+			res.Inconcl = "update during the scrape: " + err.Error()
 			return res
 		}
 	} else {
@@ -446,6 +472,9 @@ func runC13Case(w *core.WorkerCtx, idx int, ld *c13Load) *core.CaseResult {
 			return res
 		}
 		res.AddSet("health_after_fault", kind+"="+string(st.Health))
+		if transferMid {
+			before = 0 // normal -> in_transfer restarts the counter; the attempt in flight is counted after that
+		}
 		if st.ScrapeTimes != before+1 {
 			res.Violate("C13/counter/"+kind, "scrape counter went from %d to %d over one attempt (%s)", before, st.ScrapeTimes, kindText(c))
 		}
